@@ -64,8 +64,8 @@ type (
 		// Active receivers
 		// RegisterActiveReceiver registers an active receiver for watermark propagation
 		RegisterActiveReceiver(sourceShardID history.ClusterShardID, receiver ActiveReceiver)
-		// UnregisterActiveReceiver removes an active receiver
-		UnregisterActiveReceiver(sourceShardID history.ClusterShardID)
+		// UnregisterActiveReceiver removes the active receiver for the shard only if it is still the given receiver
+		UnregisterActiveReceiver(sourceShardID history.ClusterShardID, receiver ActiveReceiver)
 		// GetActiveReceiver returns the active receiver for the given source shard
 		GetActiveReceiver(sourceShardID history.ClusterShardID) (ActiveReceiver, bool)
 		// TerminatePreviousLocalReceiver checks if there is a previous local receiver for this shard and terminates it if needed
@@ -86,12 +86,12 @@ type (
 		GetLocalAckChan(shardID history.ClusterShardID) (chan RoutedAck, bool)
 		// RemoveLocalAckChan removes the ack channel for a specific shard ID only if it matches the provided channel
 		RemoveLocalAckChan(shardID history.ClusterShardID, expectedChan chan RoutedAck)
-		// SetLocalReceiverCancelFunc registers a cancel function for a local receiver for a specific shard ID
-		SetLocalReceiverCancelFunc(shardID history.ClusterShardID, cancelFunc context.CancelFunc)
+		// SetLocalReceiverCancelFunc registers the cancel function of the given local receiver for a specific shard ID
+		SetLocalReceiverCancelFunc(shardID history.ClusterShardID, cancelFunc context.CancelFunc, owner ActiveReceiver)
 		// GetLocalReceiverCancelFunc retrieves the cancel function for a local receiver for a specific shard ID
 		GetLocalReceiverCancelFunc(shardID history.ClusterShardID) (context.CancelFunc, bool)
-		// RemoveLocalReceiverCancelFunc unconditionally removes the cancel function for a local receiver for a specific shard ID
-		RemoveLocalReceiverCancelFunc(shardID history.ClusterShardID)
+		// RemoveLocalReceiverCancelFunc removes the cancel function for a specific shard ID only if it was registered by the given receiver
+		RemoveLocalReceiverCancelFunc(shardID history.ClusterShardID, owner ActiveReceiver)
 
 		// Intra-proxy
 		// GetIntraProxyManager returns the intra-proxy manager if it exists
@@ -138,7 +138,9 @@ type (
 		localAckChannels   map[history.ClusterShardID]chan RoutedAck
 		localAckChannelsMu sync.RWMutex
 		// localReceiverCancelFuncs maps shard IDs to context cancel functions for local receiver termination
-		localReceiverCancelFuncs   map[history.ClusterShardID]context.CancelFunc
+		localReceiverCancelFuncs map[history.ClusterShardID]context.CancelFunc
+		// localReceiverCancelOwner records which receiver registered the cancel function (same lock)
+		localReceiverCancelOwner   map[history.ClusterShardID]ActiveReceiver
 		localReceiverCancelFuncsMu sync.RWMutex
 		// remoteNodeStates stores remote node shard states (from MergeRemoteState)
 		// keyed by node name, includes the meta (shard state) information
@@ -192,6 +194,7 @@ func NewShardManager(memberlistConfig *config.MemberlistConfig, shardCountConfig
 		remoteSendChannels:       make(map[history.ClusterShardID]chan RoutedMessage),
 		localAckChannels:         make(map[history.ClusterShardID]chan RoutedAck),
 		localReceiverCancelFuncs: make(map[history.ClusterShardID]context.CancelFunc),
+		localReceiverCancelOwner: make(map[history.ClusterShardID]ActiveReceiver),
 		remoteNodeStates:         make(map[string]NodeShardState),
 	}
 
@@ -669,7 +672,7 @@ func (sm *shardManagerImpl) TerminatePreviousLocalReceiver(shardID history.Clust
 		prevCancelFunc()
 
 		// Force remove the cancel function and ack channel from tracking
-		sm.RemoveLocalReceiverCancelFunc(shardID)
+		sm.forceRemoveLocalReceiverCancelFunc(shardID)
 		sm.forceRemoveLocalAckChan(shardID)
 	}
 }
@@ -1077,11 +1080,14 @@ func (sm *shardManagerImpl) RegisterActiveReceiver(sourceShardID history.Cluster
 	sm.activeReceivers[sourceShardID] = receiver
 }
 
-// UnregisterActiveReceiver removes an active receiver
-func (sm *shardManagerImpl) UnregisterActiveReceiver(sourceShardID history.ClusterShardID) {
+// UnregisterActiveReceiver removes the active receiver for the shard only if it is still the given receiver:
+// a newer incarnation may have registered in the meantime, and its entry must survive the old one's clean-up.
+func (sm *shardManagerImpl) UnregisterActiveReceiver(sourceShardID history.ClusterShardID, receiver ActiveReceiver) {
 	sm.activeReceiversMu.Lock()
 	defer sm.activeReceiversMu.Unlock()
-	delete(sm.activeReceivers, sourceShardID)
+	if current, ok := sm.activeReceivers[sourceShardID]; ok && current == receiver {
+		delete(sm.activeReceivers, sourceShardID)
+	}
 }
 
 // GetActiveReceiver returns the active receiver for the given source shard
@@ -1215,11 +1221,12 @@ func (sm *shardManagerImpl) forceRemoveLocalAckChan(shardID history.ClusterShard
 }
 
 // SetLocalReceiverCancelFunc registers a cancel function for a local receiver for a specific shard ID
-func (sm *shardManagerImpl) SetLocalReceiverCancelFunc(shardID history.ClusterShardID, cancelFunc context.CancelFunc) {
+func (sm *shardManagerImpl) SetLocalReceiverCancelFunc(shardID history.ClusterShardID, cancelFunc context.CancelFunc, owner ActiveReceiver) {
 	sm.logger.Info("Register local receiver cancel function for shard", tag.NewStringTag("shardID", ClusterShardIDtoString(shardID)))
 	sm.localReceiverCancelFuncsMu.Lock()
 	defer sm.localReceiverCancelFuncsMu.Unlock()
 	sm.localReceiverCancelFuncs[shardID] = cancelFunc
+	sm.localReceiverCancelOwner[shardID] = owner
 }
 
 // GetLocalReceiverCancelFunc retrieves the cancel function for a local receiver for a specific shard ID
@@ -1230,12 +1237,24 @@ func (sm *shardManagerImpl) GetLocalReceiverCancelFunc(shardID history.ClusterSh
 	return cancelFunc, exists
 }
 
-// RemoveLocalReceiverCancelFunc unconditionally removes the cancel function for a local receiver for a specific shard ID
-func (sm *shardManagerImpl) RemoveLocalReceiverCancelFunc(shardID history.ClusterShardID) {
+// RemoveLocalReceiverCancelFunc removes the cancel function for a specific shard ID only if it was registered by the
+// given receiver (a newer incarnation's cancel function must survive the old incarnation's clean-up)
+func (sm *shardManagerImpl) RemoveLocalReceiverCancelFunc(shardID history.ClusterShardID, owner ActiveReceiver) {
 	sm.logger.Info("Remove local receiver cancel function for shard", tag.NewStringTag("shardID", ClusterShardIDtoString(shardID)))
 	sm.localReceiverCancelFuncsMu.Lock()
 	defer sm.localReceiverCancelFuncsMu.Unlock()
+	if current, ok := sm.localReceiverCancelOwner[shardID]; ok && current == owner {
+		delete(sm.localReceiverCancelFuncs, shardID)
+		delete(sm.localReceiverCancelOwner, shardID)
+	}
+}
+
+// forceRemoveLocalReceiverCancelFunc unconditionally removes the cancel function for a specific shard ID
+func (sm *shardManagerImpl) forceRemoveLocalReceiverCancelFunc(shardID history.ClusterShardID) {
+	sm.localReceiverCancelFuncsMu.Lock()
+	defer sm.localReceiverCancelFuncsMu.Unlock()
 	delete(sm.localReceiverCancelFuncs, shardID)
+	delete(sm.localReceiverCancelOwner, shardID)
 }
 
 // shardEventDelegate handles memberlist cluster events
